@@ -48,8 +48,9 @@ FILES = [
     "exodus/mixed/mixed.exo",
     "mpas/QU/mesh.QU.1920km.151026.nc",
 ]
-FILES_THOROUGH = ["ugrid/outCSne30/outCSne30.ug", "geos-cs/c12/test-c12.native.nc4", "ugrid/geoflow-small/grid.nc",
-                  "esmf/ne30/ne30pg3.grid.nc"]
+# every reader (format) is in the quick list: copies / equality of a grid can depend on what its reader left behind
+FILES += ["geos-cs/c12/test-c12.native.nc4", "esmf/ne30/ne30pg3.grid.nc"]
+FILES_THOROUGH = ["ugrid/outCSne30/outCSne30.ug", "ugrid/geoflow-small/grid.nc"]
 
 # --------------------------------------------------------------------------------------
 # building grids from a JSON-able description (public constructors only)
